@@ -234,6 +234,13 @@ def runModel (line : String) : String :=
 def bS (b : Bool) : String := if b then "1" else "0"
 def optDpv : Option DPV → String | none => "none" | some v => v.name
 
+/-- predecessor / successor SCALAR value -/
+def prevSc (cp : Nat) : Option Nat := if cp == 0 then none else if cp == 0xE000 then some 0xD7FF else some (cp - 1)
+def nextSc (cp : Nat) : Option Nat := if cp == 0x10FFFF then none else if cp == 0xD7FF then some 0xE000 else some (cp + 1)
+/-- result with the probed code point written "c" and its neighbour "p" -/
+def fmtPC (nb : Option Nat) (cp : Nat) (t : List Nat) : String :=
+  " ".intercalate (t.map (fun x => if x == cp then "c" else if some x == nb then "p" else hex4 x))
+
 def evalFn (name : String) (cp : Nat) : Option String :=
   let sc := isScalar cp
   match name with
@@ -281,6 +288,16 @@ def evalFn (name : String) (cp : Nat) : Option String :=
       | .ok t => " ".intercalate (t.map (fun x => if x == cp then "c" else hex4 x)) | _ => "err") else none
   | "spec_opmap_after" => if sc then some (" ".intercalate ((Spec.specOpaqueMap [0xA0, cp, 0x62]).map (fun x => if x == cp then "c" else hex4 x))) else none
   | "spec_nickmap_mid" => if sc then some (" ".intercalate ((Spec.specSpaces [0x61, cp, 0x62]).map (fun x => if x == cp then "c" else hex4 x))) else none
+  | "dir_p1" => if sc then some (let s := (prevSc cp).toList ++ [cp]; match directionalityRule s with | .ok t => (if t == s then "ok" else "changed") | _ => "err") else none
+  | "dir_n1" => if sc then some (let s := (nextSc cp).toList ++ [cp]; match directionalityRule s with | .ok t => (if t == s then "ok" else "changed") | _ => "err") else none
+  | "spec_dir_p1" => if sc then some (match Spec.specDirectionality Spec.bidi16 ((prevSc cp).toList ++ [cp]) with | .ok _ => "ok" | _ => "err") else none
+  | "spec_dir_n1" => if sc then some (match Spec.specDirectionality Spec.bidi16 ((nextSc cp).toList ++ [cp]) with | .ok _ => "ok" | _ => "err") else none
+  | "width_p" => if sc then some (match widthMappingRule ([0xFF21] ++ (prevSc cp).toList ++ [cp]) with | .ok t => fmtPC (prevSc cp) cp t | _ => "err") else none
+  | "spec_width_p" => if sc then some (fmtPC (prevSc cp) cp (Spec.specWidth ([0xFF21] ++ (prevSc cp).toList ++ [cp]))) else none
+  | "case_p" => if sc then some (match caseMappingRule ([0x41] ++ (prevSc cp).toList ++ [cp]) with | .ok t => fmtPC (prevSc cp) cp t | _ => "err") else none
+  | "spec_case_p" => if sc then some (fmtPC (prevSc cp) cp (Spec.specCase ([0x41] ++ (prevSc cp).toList ++ [cp]))) else none
+  | "nickmap_trail" => if sc then some (match trimSpaces [0x61, cp, 0x20, 0x20] with | .ok t => fmtPC none cp t | _ => "err") else none
+  | "spec_nickmap_trail" => if sc then some (fmtPC none cp (Spec.specSpaces [0x61, cp, 0x20, 0x20])) else none
   | "zs" => if sc then some (bS (isSpaceSeparator cp)) else none
   | "nonascii_zs" => if sc then some (bS (isNonAsciiSpace cp)) else none
   | "std_upper" => if sc then some (bS (isUppercase cp)) else none
